@@ -1,2 +1,4 @@
 import RoProps.C01
 import RoProps.C04
+import RoProps.C18Expected
+import RoProps.C18
